@@ -1,0 +1,14 @@
+//go:build verif
+
+package rueidis
+
+// VerifYieldAfterIncrWaits, when set, runs between a caller's incrWaits and its load of the pipe state in
+// pipe.Do and pipe.DoMulti: a scheduling point with which the verification harness widens that window.
+// It must be set before any pipe is used and left unchanged while pipes are in use. nil = no effect.
+var VerifYieldAfterIncrWaits func(waits uint32)
+
+func verifYieldAfterIncrWaits(waits uint32) {
+	if f := VerifYieldAfterIncrWaits; f != nil {
+		f(waits)
+	}
+}
